@@ -9,7 +9,8 @@ LEVEL = 'exploration'
 RULE = ('flat: every integer operator x (boundary pool x boundary pool, exhaustive) + seeded random operands, each under '
         'several compilers/-O levels and with the builtin and the fallback bit-counting paths; expr: random integer '
         'expression trees (select, local.tee, nested operators, wrap/extend) as exported functions called with pool '
-        'and random arguments. Non-trivial = the evaluation hits a hazard class (shift/rotate count 0 or >= width, '
+        'and random arguments, plus constant-operand instruction windows (const a; op1; const b; op2 for the shift / rotate / mask / '
+        'multiply-divide pairs toolchains emit as idioms, equal immediates at every count, and arbitrary operator pairs). Non-trivial = the evaluation hits a hazard class (shift/rotate count 0 or >= width, '
         'divisor 0 or -1, dividend INT_MIN, clz/ctz/popcnt of 0 or all-ones, sign bit set in a signed '
         'comparison/shift/extension, carry out of the top bit) or traps; distinct by (operator or body, operands).')
 ASSUME = ['reference interpreter calibrated against the spec-suite expectations in /repo/tests/gen (vf.spec)',
@@ -42,12 +43,31 @@ def make_expr(ch, params):
         t, body = idioms[ch.below(len(idioms))]
         m.funcs.append(Func(m.type_index((t,), (t,)), [], body))
         m.exports.append((b'idiom%d' % k, 'func', len(m.funcs) - 1))
+    # instruction windows a translator may recognise and rewrite as a whole: local.get; const a; op1; const b; op2 - above all the
+    # pairs that toolchains emit as idioms (shl n / shr_s n = sign extension of the low width-n bits, shl n / shr_u n, shr_u / shl,
+    # rotl / rotr, add / sub, xor / xor, and / or masks, mul / div_u, mul / shr) with EQUAL immediates at every count 1..width-1,
+    # then arbitrary operator pairs and unequal immediates; immediates are encoded in the shortest form (single bytes up to 63)
+    PAIRS = (('shl', 'shr_s'), ('shl', 'shr_u'), ('shr_u', 'shl'), ('shr_s', 'shl'), ('rotl', 'rotr'), ('rotr', 'rotl'), ('add', 'sub'),
+             ('sub', 'add'), ('xor', 'xor'), ('and', 'or'), ('or', 'and'), ('mul', 'div_u'), ('mul', 'shr_u'), ('shl', 'div_u'), ('shl', 'rem_u'))
+    BIN = ('add', 'sub', 'mul', 'and', 'or', 'xor', 'shl', 'shr_s', 'shr_u', 'rotl', 'rotr', 'div_u', 'rem_u', 'div_s', 'rem_s')
+    for k in range(8):
+        t, w = ch.pick(((I32, 32), (I64, 64)))
+        op1, op2 = ch.pick(PAIRS) if ch.below(4) else (ch.pick(BIN), ch.pick(BIN))
+        a = ch.pick([8, 16, 24, 32, 40, 48, 56][:3 if w == 32 else 7]) if ch.below(2) else 1 + ch.below(w - 1)
+        b = a if ch.below(4) else 1 + ch.below(w - 1)
+        body = [('local.get', 0), ('%s.const' % t, a), ('%s.%s' % (t, op1),), ('%s.const' % t, b), ('%s.%s' % (t, op2),)]
+        m.funcs.append(Func(m.type_index((t,), (t,)), [], body))
+        m.exports.append((b'peep%d' % k, 'func', len(m.funcs) - 1))
     script = [('inst', 0)]
     fex = [(n, i) for n, kd, i in m.exports if kd == 'func']
     for e, (n, fi) in enumerate(fex):
         ps = m.func_type(fi)[0]
         for _ in range(params.get('nargs', 12) if ps else 1):
             script.append(('call', 0, e, gen.gen_args(ch, ps)))
+        if n.startswith(b'peep'):
+            wbits = 32 if ps[0] == I32 else 64
+            for v in (0x80, 0x100, 0x8000, 0x10000, 0x800000, 0x1000000, 0x7f, 0xff, 0xffff, 1 << (wbits - 1), (1 << wbits) - 1, 0x0123456789abcdef):
+                script.append(('call', 0, e, [v & ((1 << wbits) - 1)]))
         if n.startswith(b'idiom'):
             script.append(('call', 0, e, [0]))
             script.append(('call', 0, e, [(1 << (32 if ps[0] == I32 else 64)) - 1]))
